@@ -27,6 +27,8 @@ func runC03(r *engine.Run) {
 	r.Rule("WHO-tombstones", "LevelNodeDB.DeletedNodes (tombstones of deletes that were not propagated) is never read by the level store's lookups (getNode, GetNode, MultiGetNode, Iterate, Size): tombstones are not cleared when a node is stored again")
 	r.Rule("AGREE-nostamp", "mergeChanges installs the nodes of the child's change set without re-stamping them (the installer it calls in the replay loop sets no origin/version on the node): a node the child took over from another version keeps the hash the child's root refers to, and the donor store's object is not written")
 	r.Rule("DOM-mergeall", "in mergeChanges every iteration of the loop over the child's changes passes insertNode (only an error return leaves the loop early): no change is skipped")
+	r.Rule("LOCK-mpt", "see C16: root, the stores' maps and level links and the collector's maps are accessed only with their owner's mutex held in the required mode (a writer under the read lock, or on a root read outside the lock, loses another writer's update)")
+	r.Rule("ORDER-critical", "see C16: Insert, Delete, MergeChanges and MergeDB are one critical section each, from the first read of the root to its last update")
 	r.NotDec = append(r.NotDec, "equality of parent and child views after arbitrary histories")
 	whoPrev(r)
 	domMerge(r)
@@ -37,6 +39,7 @@ func runC03(r *engine.Run) {
 	domAdopt(r, "DOM-adopt")
 	whoTombstones(r, "WHO-tombstones")
 	domMergeAll(r, "DOM-mergeall")
+	mptLockDiscipline(r)
 }
 
 func whoPrev(r *engine.Run) {
